@@ -17,7 +17,7 @@ impl Cx {
         if args.len() != sig.params.len() {
             return Err(format!("arity mismatch calling {}", key));
         }
-        let mut t = format!("{} dbg", sig.coq);
+        let mut t = if sig.pure_fn { sig.coq.clone() } else { format!("{} dbg", sig.coq) };
         if let Some(r) = recv {
             t += &format!(" {}", paren(&r));
         }
@@ -25,6 +25,9 @@ impl Cx {
             t += &format!(" {}", paren(&crate::expr::lit_as(a, pty)));
         }
         let rty = sig.coq_ret();
+        if sig.pure_fn {
+            return Ok((t, rty));
+        }
         if rty == Ty::Unit {
             pres.push(Pre::Seq(Code::Raw(t)));
             Ok(("tt".into(), Ty::Unit))
@@ -71,11 +74,14 @@ impl Cx {
                     return Err("Ok(..) with a payload".into());
                 }
                 return match self.cur.ret {
+                    Ty::URes => Ok(("true".into(), Ty::URes)),
+                    Ty::Unit => Ok(("tt".into(), Ty::Unit)),
                     Ty::CRes => Ok(("COk".into(), Ty::CRes)),
                     Ty::NRes => Ok(("NOk".into(), Ty::NRes)),
                     _ => Err("Ok(()) in a function that does not return a Result".into()),
                 };
             }
+            "Err" if self.cur.ret == Ty::URes && ts(&c.args[0]).replace(' ', "") == "()" => return Ok(("false".into(), Ty::URes)),
             "Err" => {
                 let p = match &c.args[0] {
                     Expr::Path(p) => path_str(&p.path),
@@ -185,6 +191,8 @@ impl Cx {
             Ty::Stamp => vec!["NodeStamp"],
             Ty::Range => vec!["SiblingsRange", "DetachedSiblingsRange"],
             Ty::Edge => vec!["NodeEdge"],
+            Ty::IState => vec!["IndentedBlockState"],
+            Ty::Writer => vec!["IndentWriter"],
             Ty::TravSt => vec![if self.cur_key.starts_with("ReverseTraverse") { "ReverseTraverse" } else { "Traverse" }],
             _ => vec![],
         };
@@ -230,6 +238,63 @@ impl Cx {
                     return Ok((format!("nth_error (nodes {}) {}", a, paren(&v)), Ty::opt(Ty::Node)));
                 }
                 _ => return Err(format!("unsupported Vec method self.nodes.{}", name)),
+            }
+        }
+        // ---- the sink of the pretty printer: bytes are appended to the output (it never fails)
+        if recv_s == "self.fmt" && matches!(self.cur.self_kind, SelfKind::MutVal(Ty::Writer)) {
+            let (v, vty) = self.expr(&m.args[0], pres)?;
+            let bytes = match (name.as_str(), &vty) {
+                ("write_str", Ty::Str) => v,
+                ("write_char", Ty::Char) => format!("[{}]", v),
+                _ => return Err(format!("unsupported sink call `{}`", ts(m))),
+            };
+            let n = self.gensym("v_self_");
+            pres.push(Pre::Let(n.clone(), format!("set_g_out (g_out {} ++ {})%list {}", self.self_var, bytes, self.self_var)));
+            self.self_var = n;
+            return Ok(("tt".into(), Ty::Unit));
+        }
+        // ---- self.indents.iter().rev().take_while(|i| p i).count()
+        if name == "count" {
+            if let Expr::MethodCall(tw) = &*m.receiver {
+                if tw.method == "take_while" {
+                    if let Expr::MethodCall(rv) = &*tw.receiver {
+                        if rv.method == "rev" {
+                            if let Expr::MethodCall(it) = &*rv.receiver {
+                                if it.method == "iter" {
+                                    let (l, lty) = self.expr(&it.receiver, pres)?;
+                                    if lty != Ty::ListIState {
+                                        return Err("take_while idiom over a non-list".into());
+                                    }
+                                    let x = self.gensym("x_");
+                                    let (cp, ct, cty) = self.closure1(&tw.args[0], &x, &Ty::IState)?;
+                                    let body = Self::fold_pure(&cp, &ct).ok_or("take_while with an effectful closure")?;
+                                    if cty != Ty::Bool {
+                                        return Err("take_while closure is not a predicate".into());
+                                    }
+                                    return Ok((format!("count_trailing (fun {} => {}) {}", x, body, paren(&l)), Ty::Nat));
+                                }
+                            }
+                        }
+                    }
+                }
+            }
+        }
+        // ---- Vec methods on self.indents (a place)
+        if recv_s == "self.indents" && matches!(self.cur.self_kind, SelfKind::MutVal(Ty::Writer)) && (name == "push" || name == "pop") {
+            let cur = format!("g_ind {}", self.self_var);
+            if name == "push" {
+                let (v, _) = self.expr(&m.args[0], pres)?;
+                let n = self.gensym("v_self_");
+                pres.push(Pre::Let(n.clone(), format!("set_g_ind ({} ++ [{}])%list {}", cur, v, self.self_var)));
+                self.self_var = n;
+                return Ok(("tt".into(), Ty::Unit));
+            } else {
+                let old = self.gensym("old_");
+                pres.push(Pre::Let(old.clone(), format!("last_opt ({})", cur)));
+                let n = self.gensym("v_self_");
+                pres.push(Pre::Let(n.clone(), format!("set_g_ind (removelast ({})) {}", cur, self.self_var)));
+                self.self_var = n;
+                return Ok((old, Ty::opt(Ty::IState)));
             }
         }
         // ---- iterator idioms on NodeId
@@ -328,6 +393,24 @@ impl Cx {
                 Ok((format!("S {}", paren(&rt)), Ty::Nat))
             }
             (Ty::NzNat, "get") => Ok((rt, Ty::Nat)),
+            (Ty::ListIState, "len") | (Ty::Str, "len") => Ok((format!("List.length {}", paren(&rt)), Ty::Nat)),
+            (Ty::ListIState, "last") => Ok((format!("last_opt {}", paren(&rt)), Ty::opt(Ty::IState))),
+            (Ty::Str, "is_empty") => Ok((format!("match {} with [] => true | _ => false end", rt), Ty::Bool)),
+            (Ty::Str, "find") => {
+                let (c, cty) = self.expr(&m.args[0], pres)?;
+                if cty != Ty::Char || c != "10%N" {
+                    return Err("str::find of something other than a newline".into());
+                }
+                Ok((format!("find_nl {}", paren(&rt)), Ty::opt(Ty::Nat)))
+            }
+            (Ty::Nat, "checked_sub") => {
+                let (a, _) = self.expr(&m.args[0], pres)?;
+                if a != "1" {
+                    return Err("checked_sub of something other than 1".into());
+                }
+                Ok((format!("match {} with O => None | S k_ => Some k_ end", rt), Ty::opt(Ty::Nat)))
+            }
+            (Ty::URes, "is_ok") => Ok((rt, Ty::Bool)),
             (Ty::AddrRange, "contains") => {
                 let (p, pty) = self.expr(&m.args[0], pres)?;
                 if pty != Ty::Addr {
